@@ -108,11 +108,29 @@ LOWERED_ATTRS = {
 NAME_KEYED = ("attr_dict", "param_dict")
 
 
-def _returned_list_lowered(py, f2, index: int, depth: int) -> bool:
+def _local_list_lowered(py, f2, name: str, depth: int) -> bool:
+    """every element put into the local list `name` of f2 is lower-case (see _returned_list_lowered)"""
+    ret = ast.Return(value=ast.Name(id=name, ctx=ast.Load()))
+    fake = ast.FunctionDef(name=f2.name, args=f2.args, body=list(f2.body) + [ret], decorator_list=[], returns=None, type_comment=None,
+                           lineno=f2.lineno, col_offset=0)
+    # only the added return counts: hide the function's own returns
+    class _R(ast.NodeTransformer):
+        def visit_Return(self, n):
+            return n if n is ret else ast.copy_location(ast.Pass(), n)
+        def visit_FunctionDef(self, n):
+            return n if n is not fake else self.generic_visit(n)
+    import copy as _copy
+    fake2 = _copy.copy(fake)
+    fake2.body = [x for x in fake.body]
+    rets_backup = None
+    return _returned_list_lowered(py, fake2, 0, depth, only=ret, mod=py.module_of(f2))
+
+
+def _returned_list_lowered(py, f2, index: int, depth: int, only=None, mod=None) -> bool:
     """every element that f2 puts into the list it returns (as element `index` of the returned tuple) is lower-case:
     a constant, the variable of a loop over constants, or text that has passed .lower()"""
     names = set()
-    for v in astq.returns(f2):
+    for v in ([only.value] if only is not None else astq.returns(f2)):
         if isinstance(v, ast.Tuple) and len(v.elts) > index:
             v = v.elts[index]
         if isinstance(v, ast.Name):
@@ -133,8 +151,14 @@ def _returned_list_lowered(py, f2, index: int, depth: int) -> bool:
                 # the variable of a loop over literal constants is as lower-case as the constants
                 its = [st.iter for st in ast.walk(f2) if isinstance(st, (ast.For, ast.comprehension)) and
                        isinstance(st.target, ast.Name) and st.target.id == x.id]
-                if its and all(isinstance(i, (ast.List, ast.Tuple)) and all(isinstance(c, ast.Constant) and isinstance(c.value, str)
-                                                                            and c.value == c.value.lower() for c in i.elts) for i in its):
+                def lower_consts(i) -> bool:
+                    # a literal sequence, or a module-level constant that evaluates to one (PREFIXES = ("pure", ...))
+                    try:
+                        v = py.eval_const(i, py.module_env(mod or py.module_of(f2)))
+                    except Exception:
+                        v = py._UNKNOWN
+                    return isinstance(v, (list, tuple, set, frozenset)) and bool(v) and all(isinstance(c, str) and c == c.lower() for c in v)
+                if its and all(lower_consts(i) for i in its):
                     continue
             ok = ok and _lowered(py, f2, x, depth + 1)
         elif isinstance(n, ast.Assign) and any(isinstance(t, ast.Name) and t.id in names for t in n.targets):
@@ -145,6 +169,45 @@ def _returned_list_lowered(py, f2, index: int, depth: int) -> bool:
             else:
                 ok = False
     return ok
+
+
+def _param_lowered(py, fn, name: str, depth: int):
+    """A parameter that is never rebound is as lower-case as the arguments of every call site (None: not a parameter, or no
+    call site can be resolved)."""
+    if not isinstance(fn, (ast.FunctionDef, ast.AsyncFunctionDef)):
+        return None
+    a = fn.args
+    pos = [x.arg for x in a.posonlyargs + a.args]
+    if name not in pos + [x.arg for x in a.kwonlyargs]:
+        return None
+    q = py.qualname(fn)
+    callee = q.split(".")[-2] if q.endswith(".__init__") and "." in q else fn.name
+    method = "." in q and not q.endswith(".__init__")
+    plain = pos[1:] if ("." in q and pos and pos[0] in ("self", "cls")) else pos
+    defaults = dict(zip(reversed(pos), reversed(a.defaults)))
+    defaults.update({k.arg: d for k, d in zip(a.kwonlyargs, a.kw_defaults) if d is not None})
+    sites = []
+    for _m, f2 in py.all_ifunctions():
+        for c in ast.walk(f2):
+            if not isinstance(c, ast.Call):
+                continue
+            cn = call_name(c)
+            if not (cn == callee or (method and cn.endswith("." + callee)) or (not method and cn.endswith("." + callee)
+                                                                               and cn.split(".")[0] in ("ford", "sourceform"))):
+                continue
+            if any(isinstance(x, ast.Starred) for x in c.args) or any(k.arg is None for k in c.keywords):
+                return None
+            arg = None
+            if name in plain and plain.index(name) < len(c.args):
+                arg = c.args[plain.index(name)]
+            else:
+                arg = next((k.value for k in c.keywords if k.arg == name), defaults.get(name))
+            if arg is None:
+                return None
+            sites.append((f2, arg))
+    if not sites:
+        return None
+    return all(_lowered(py, f2, arg, depth + 1) for f2, arg in sites)
 
 
 def _lowered(py, fn, e: ast.AST, depth=0) -> bool:
@@ -158,11 +221,32 @@ def _lowered(py, fn, e: ast.AST, depth=0) -> bool:
     if isinstance(e, ast.Attribute) and e.attr in LOWERED_ATTRS:
         return True
     if isinstance(e, ast.Attribute) and ast.unparse(e) == "self.attribs":
-        # attribs produced by _list_of_procedure_attributes are canonical lower-case keywords
+        # attribs built from canonical lower-case keywords: assigned (possibly as one element of a tuple assignment) from a
+        # helper that returns such a list, or - in the canonical form, where the helper is inlined - from a local list
+        verdicts = []
         for n in ast.walk(fn):
-            if isinstance(n, ast.Assign) and "self.attribs" in ast.unparse(n.targets[0]) and \
-                    isinstance(n.value, ast.Call) and call_name(n.value) == "_list_of_procedure_attributes":
-                return _returned_list_lowered(py, py.func("sourceform._list_of_procedure_attributes"), 0, depth)
+            if not isinstance(n, ast.Assign):
+                continue
+            for t in n.targets:
+                pairs = [(t, n.value, None)]
+                if isinstance(t, ast.Tuple):
+                    if isinstance(n.value, ast.Tuple) and len(n.value.elts) == len(t.elts):
+                        pairs = [(tt, vv, None) for tt, vv in zip(t.elts, n.value.elts)]
+                    else:
+                        pairs = [(tt, n.value, i) for i, tt in enumerate(t.elts)]
+                for tt, vv, idx in pairs:
+                    if ast.unparse(tt) != "self.attribs":
+                        continue
+                    if isinstance(vv, ast.Call) and py.has_func(f"sourceform.{call_name(vv)}"):
+                        verdicts.append(_returned_list_lowered(py, py.func(f"sourceform.{call_name(vv)}"), idx or 0, depth))
+                    elif isinstance(vv, ast.Name):
+                        verdicts.append(_local_list_lowered(py, fn, vv.id, depth))
+                    elif isinstance(vv, (ast.List, ast.Tuple)):
+                        verdicts.append(all(_lowered(py, fn, x, depth + 1) for x in vv.elts))
+                    else:
+                        verdicts.append(False)
+        if verdicts:
+            return all(verdicts)
     if isinstance(e, ast.Attribute) and e.attr == "attr_dict":
         # the attribute table holds lower-case text iff every value recorded into it is lower-cased where it is recorded
         key = "_attr_dict_lowered"
@@ -204,6 +288,10 @@ def _lowered(py, fn, e: ast.AST, depth=0) -> bool:
                 defs.append(n.iter)      # `for k, v in d.items()`: as lowered as d is
         if e.id == "line_lower":
             return True
+        if not defs:
+            v = _param_lowered(py, fn, e.id, depth)
+            if v is not None:
+                return v
         if defs:
             def mentions_self(d):
                 return any(isinstance(x, ast.Name) and x.id == e.id for x in ast.walk(d))
@@ -218,7 +306,8 @@ def _lowered(py, fn, e: ast.AST, depth=0) -> bool:
 def r2_lower_discipline(ctx, rep):
     py = ctx.py
     n = 0
-    for mod, fn in py.all_functions():
+    # on the canonical (helper-inlined) program: a comparison inside a helper is judged with the arguments of its call sites
+    for mod, fn in py.all_ifunctions():
         if mod != "sourceform":
             continue
         q = py.qualname(fn)
@@ -254,7 +343,7 @@ def r2_lower_discipline(ctx, rep):
         raise AnalysisError(f"only {n} keyword comparisons found")
     # name-keyed tables filled with lower-cased names: every lookup key is lower-cased too
     m = 0
-    for mod, fn in py.all_functions():
+    for mod, fn in py.all_ifunctions():
         if mod != "sourceform":
             continue
         for c in ast.walk(fn):
@@ -452,20 +541,46 @@ def r4_container_matrix(ctx, rep):
         ok = any(re.search(rf"\bnot \(?{flag}\b", c) for _msg, conds in arm.errors for c in conds)
         rep.ob(f"{rname[:-3].lower()} before CONTAINS in a code unit is an error", ok,
                f"the arm raises while `{flag}` is false", py.nloc(arm.test))
-    # interfaces are flattened into generic / abstract / explicit lists
+    # interfaces are flattened into generic / abstract / explicit lists.  Decided per truth assignment of (abstract, generic)
+    # on the canonical (helper-inlined) arm: which list receives what
     arm = cs.arm_by_regex("INTERFACE_RE")
-    ev = [e for e in astq.trace_block(arm.body, cs.fn) if e.kind == "call" and isinstance(e.node.func, ast.Attribute)
-          and e.node.func.attr in ("append", "extend") and e.node.args]
-    def put(lst, how, what, cond, neg=()):
-        return any(ast.unparse(e.node.func.value) == f"self.{lst}" and e.node.func.attr == how and what in ast.unparse(e.node.args[0])
-                   and any(cond in c and not c.startswith("not") for c in e.cond_texts())
-                   and not any(n in c and not c.startswith("not") for c in e.cond_texts() for n in neg) for e in ev)
-    ok = put("absinterfaces", "extend", ".contents", ".abstract") and put("interfaces", "append", "", ".generic", (".abstract",)) and \
-        any(ast.unparse(e.node.func.value) == "self.interfaces" and e.node.func.attr == "extend" and ".contents" in ast.unparse(e.node.args[0])
-            and not any((".generic" in c or ".abstract" in c) and not c.startswith("not") for c in e.cond_texts()) for e in ev)
-    rep.ob("interface blocks are flattened into abstract / generic / explicit lists", ok,
-           "abstract -> absinterfaces.extend(contents); generic -> interfaces.append(block); explicit -> interfaces.extend(contents)",
-           py.nloc(arm.test))
+    evs = [e for e in astq.trace_block(arm.body, cs.fn) if e.kind == "call" and isinstance(e.node.func, ast.Attribute)
+           and e.node.func.attr in ("append", "extend") and e.node.args]
+    def atom(x):
+        if isinstance(x, ast.Attribute) and x.attr in ("abstract", "generic"):
+            return (x.attr, True)
+        return None
+    def receivers(e, env):
+        r = e.node.func.value
+        if isinstance(r, ast.Attribute) and isinstance(r.value, ast.Name) and r.value.id == "self":
+            return [r.attr]
+        if isinstance(r, ast.Name):
+            out = []
+            for _t, v in astq.assignments(cs.fn, r.id):
+                alts = [v]
+                if isinstance(v, ast.IfExp):
+                    c = astq.eval_cond(v.test, atom, env)
+                    alts = [v.body] if c is True else ([v.orelse] if c is False else [v.body, v.orelse])
+                out += [x.attr for x in alts if isinstance(x, ast.Attribute) and isinstance(x.value, ast.Name) and x.value.id == "self"]
+            return out
+        return []
+    want = {(True, True): {("absinterfaces", "extend", True)}, (True, False): {("absinterfaces", "extend", True)},
+            (False, True): {("interfaces", "append", False)}, (False, False): {("interfaces", "extend", True)}}
+    wrong = []
+    for (ab, ge), expected in want.items():
+        env = {"abstract": ab, "generic": ge}
+        got = set()
+        for e in evs:
+            if astq.event_fires(e, atom, env) is False:
+                continue
+            for lst in receivers(e, env):
+                if lst in ("interfaces", "absinterfaces"):
+                    got.add((lst, e.node.func.attr, any(isinstance(x, ast.Attribute) and x.attr == "contents" for x in ast.walk(e.node.args[0]))))
+        if got != expected:
+            wrong.append(f"abstract={ab}, generic={ge}: {sorted(got)}")
+    rep.ob("interface blocks are flattened into abstract / generic / explicit lists", not wrong,
+           "abstract -> absinterfaces.extend(contents); generic -> interfaces.append(block); explicit -> interfaces.extend(contents)"
+           if not wrong else f"for {wrong[0]} (list, operation, takes .contents)", py.nloc(arm.test))
     # attribute statements before argument matching (also C04.R3): the inherited clean-up (which applies the attribute
     # statements) runs before the first statement that takes dummy arguments out of self.variables
     fp, i_super, i_take = attribute_statements_order(py)
